@@ -67,8 +67,8 @@ CANARIES = [
      "                if selector.focus or is_template:", "                if is_template:", "C03", "caught"),
     # ---- behaviour-preserving for everything the statements fix: the checks must stay silent
     ("neutral-exit-order", "ptera/probe.py",
-     "        self._ol.__exit__(None, None, None)\n        global_probes.remove(self)\n        self._uninstall_tooling()",
-     "        self._uninstall_tooling()\n        global_probes.remove(self)\n        self._ol.__exit__(None, None, None)",
+     "        global_probes.remove(self)\n        self._uninstall_tooling()",
+     "        self._uninstall_tooling()\n        global_probes.remove(self)",
      "C05", "silent"),
     ("neutral-enter-order", "ptera/probe.py",
      "        self._install_tooling()\n        self._activated = True\n        global_probes.add(self)\n        self._ol.__enter__()",
